@@ -246,8 +246,7 @@ func existsPath(q pathQuery) (ssa.Instruction, bool) {
 									nonNil = 0
 								}
 							case *ssa.Call:
-								n := calleeName(e)
-								if strings.HasSuffix(n, ".NewParseError") || strings.HasSuffix(n, ".NewRangeParseError") || n == "fmt.Errorf" || n == "errors.New" {
+								if isErrorCtorCall(e) {
 									nonNil = 1
 								}
 							case *ssa.MakeInterface:
@@ -613,4 +612,79 @@ func (w *World) callsReaching(fn, target *ssa.Function, depth int) []ssa.CallIns
 		}
 	}
 	return out
+}
+
+// ---- error constructors --------------------------------------------------------------------
+
+var errCtorCache = map[*ssa.Function]int{} // 0 unknown, 1 yes, 2 no
+var errCtorWorld *World
+var errCtorEffects func() *Effects
+
+// isErrorCtorName: library / repo functions that always return a fresh non-nil error.
+func isErrorCtorName(n string) bool {
+	return strings.HasSuffix(n, "/parser.NewParseError") || strings.HasSuffix(n, "/parser.NewRangeParseError") || n == "fmt.Errorf" || n == "errors.New"
+}
+
+// isErrorCtorCall: the call always yields a fresh non-nil error and has no other effect: one of
+// the known constructors, or a repo function without side effects whose every return is such
+// a call or a concrete error value (a wrapper like newMissingCaseError(tok, a, b)).
+func isErrorCtorCall(ci ssa.CallInstruction) bool {
+	if isErrorCtorName(calleeName(ci)) {
+		return true
+	}
+	g := callee(ci)
+	return g != nil && isErrorCtorFn(g, 0)
+}
+
+func isErrorCtorFn(g *ssa.Function, depth int) bool {
+	switch errCtorCache[g] {
+	case 1:
+		return true
+	case 2:
+		return false
+	}
+	errCtorCache[g] = 2
+	w := errCtorWorld
+	if w == nil || !w.InRepo(g) || len(g.Blocks) == 0 || depth > 3 {
+		return false
+	}
+	res := g.Signature.Results()
+	if res.Len() != 1 || !isErrorType(res.At(0).Type()) {
+		return false
+	}
+	if errCtorEffects != nil && len(errCtorEffects().Writes(g)) > 0 {
+		return false
+	}
+	ok := true
+	n := 0
+	for _, b := range g.Blocks {
+		for _, in := range b.Instrs {
+			switch x := in.(type) {
+			case *ssa.Return:
+				n++
+				switch v := x.Results[0].(type) {
+				case *ssa.MakeInterface:
+				case *ssa.Call:
+					if !isErrorCtorName(calleeName(v)) && !(callee(v) != nil && isErrorCtorFn(callee(v), depth+1)) {
+						ok = false
+					}
+				default:
+					ok = false
+				}
+			case ssa.CallInstruction:
+				nm := calleeName(x)
+				if pureStd[nm] || isErrorCtorName(nm) || (callee(x) != nil && isErrorCtorFn(callee(x), depth+1)) {
+					continue
+				}
+				ok = false
+			case *ssa.MapUpdate, *ssa.Go, *ssa.Defer, *ssa.Panic:
+				ok = false
+			}
+		}
+	}
+	if ok && n > 0 {
+		errCtorCache[g] = 1
+		return true
+	}
+	return false
 }
